@@ -296,9 +296,21 @@ def _removal_expr(body, side, cname, kname):
         if isinstance(st, ast.Assign) and norm(st.targets[0]) == 'removed_opts':
             return st.value
         if isinstance(st, ast.Return) and st.value is not None and not isinstance(st.value, ast.Name):
-            if isinstance(st.value, (ast.List, ast.Tuple)) and not st.value.elts:
+            v = st.value
+            if isinstance(v, ast.IfExp):
+                # `<removed> if enough_options else []`: the conditional-expression form of the nested test below
+                t, neg = v.test, False
+                if isinstance(t, ast.UnaryOp) and isinstance(t.op, ast.Not):
+                    t, neg = t.operand, True
+                tt = norm(t)
+                if tt == 'enough_options' or tt in (f'{kname} < len(options)', f'len(options) > {kname}') or \
+                        (tt.startswith('len(') and tt.endswith(f') - 1 >= {kname}')):
+                    v = v.orelse if neg else v.body
+                else:
+                    raise AnalysisError(f'A14: unrecognised conditional removal `{norm(st.value)}`')
+            if isinstance(v, (ast.List, ast.Tuple)) and not v.elts:
                 return None     # nothing removed
-            return st.value
+            return v
         if isinstance(st, ast.If):
             t = norm(st.test)
             if cname in t and ('<' in t or '>' in t):
@@ -474,6 +486,32 @@ def _flagged_row_predicate(fn, body, member, flags):
 
     def module_fn(name):
         return fn.module.functions.get(name) or fn.nested.get(name)
+
+    # (iii) an `if <local flag>:` inside the branch selects between row predicates: follow the side the flag takes
+    def flatten(stmts):
+        out = []
+        for st_ in stmts:
+            if isinstance(st_, ast.If):
+                try:
+                    out += flatten(st_.body if _eval_chain_test(st_.test, member, fl) else st_.orelse)
+                    continue
+                except AnalysisError:
+                    pass
+            out.append(st_)
+        return out
+    body = flatten(body)
+    # ... and a lambda that is itself the vectorised row predicate (`lambda v: not np.any(v[1:] <= v[:-1])`)
+    import types
+    for st in body:
+        for lam in ast.walk(st):
+            if isinstance(lam, ast.Lambda) and len(lam.args.args) == 1:
+                fake = types.SimpleNamespace(node=types.SimpleNamespace(body=[ast.Return(value=lam.body)]))
+                try:
+                    r = _predicate_relation(fake, member, {})
+                except AnalysisError:
+                    r = None
+                if r is not None:
+                    return r
     for st in body:
         # (ii) a predicate function selected by assignment
         if isinstance(st, ast.Assign) and isinstance(st.targets[0], ast.Name):
